@@ -935,8 +935,6 @@ impl<'a, Outputter: HCValueOutputter> HCPrinter<'a, Outputter> {
     fn print_op_addendum(&mut self, atom: &str) -> String {
         if !self.quoted || non_quoted_token(atom.chars()) {
             atom.to_string()
-        } else if atom == "''" {
-            "''".to_string()
         } else {
             let mut result = String::new();
 
